@@ -370,6 +370,55 @@ def allocaRoundBV (n : BitVec 64) : BitVec 64 := (n + 15#64) &&& (-16#64)
 /-- arithmetic form used by the property -/
 def allocaRound (n : Nat) : Nat := (n + 15) / 16 * 16
 
+/-! ## Result registers (`MIR_RET` in `target_machinize`, result marshalling of the interpreter shim) -/
+
+inductive RTy where
+  | int | sse | x87
+  deriving DecidableEq, Repr
+
+inductive RetLoc where
+  | rax | rdx | xmm0 | xmm1 | st0 | st1
+  deriving DecidableEq, Repr
+
+structure RetCnt where
+  ni : Nat
+  nx : Nat
+  nf : Nat
+  deriving DecidableEq, Repr
+
+/-- specification (psABI return classes as MIR.md documents them for x86-64): the first and second
+INTEGER result in rax, rdx; SSE in xmm0, xmm1; X87 in st0, st1; nothing else is defined -/
+def retSpecStep (c : RetCnt) : RTy → Option (RetLoc × RetCnt)
+  | .int => if c.ni = 0 then some (.rax, { c with ni := 1 }) else if c.ni = 1 then some (.rdx, { c with ni := 2 }) else none
+  | .sse => if c.nx = 0 then some (.xmm0, { c with nx := 1 }) else if c.nx = 1 then some (.xmm1, { c with nx := 2 }) else none
+  | .x87 => if c.nf = 0 then some (.st0, { c with nf := 1 }) else if c.nf = 1 then some (.st1, { c with nf := 2 }) else none
+
+/-- `case MIR_RET` of `target_machinize`: the three tests in source order (a third SSE or x87 result
+falls through to the integer branch) -/
+def retGenStep (c : RetCnt) (t : RTy) : Option (RetLoc × RetCnt) :=
+  if t == .sse && c.nx < 2 then some (if c.nx == 0 then .xmm0 else .xmm1, { c with nx := c.nx + 1 })
+  else if t == .x87 && c.nf < 2 then some (if c.nf == 0 then .st0 else .st1, { c with nf := c.nf + 1 })
+  else if c.ni < 2 then some (if c.ni == 0 then .rax else .rdx, { c with ni := c.ni + 1 })
+  else none
+
+/-- `_MIR_get_interp_shim`: `movss/movsd` into `xmm<n_xregs>` with `n_xregs++`, `fldt` (+`fxch` for the
+second) with `n_fregs++`, `mov` into rax/rdx with `n_iregs++`, same order of tests -/
+def retShimStep (c : RetCnt) (t : RTy) : Option (RetLoc × RetCnt) :=
+  if t == .sse && c.nx < 2 then some (if c.nx == 0 then .xmm0 else .xmm1, { c with nx := c.nx + 1 })
+  else if t == .x87 && c.nf < 2 then some (if c.nf == 0 then .st0 else .st1, { c with nf := c.nf + 1 })
+  else if c.ni < 2 then some (if c.ni == 0 then .rax else .rdx, { c with ni := c.ni + 1 })
+  else none
+
+def retWalk (step : RetCnt → RTy → Option (RetLoc × RetCnt)) (c : RetCnt) : List RTy → Option (List RetLoc)
+  | [] => some []
+  | t :: ts =>
+    match step c t with
+    | none => none
+    | some (l, c') => (retWalk step c' ts).map (l :: ·)
+
+def RetLoc.toString : RetLoc → String
+  | .rax => "rax" | .rdx => "rdx" | .xmm0 => "xmm0" | .xmm1 => "xmm1" | .st0 => "st0" | .st1 => "st1"
+
 /-! ## parsing / printing for the driver -/
 
 def PTy.ofString? (s : String) : Option PTy :=
